@@ -104,7 +104,7 @@ def main(argv=None) -> int:  # noqa: C901
     meta = importlib.import_module("pvm.checks.meta").META[prop]
     nshards = a.shards or meta.get("shards", NSHARDS_DEFAULT)
     soft_s = meta.get("soft_s", {}).get(tier, 240.0 if tier == "quick" else 2400.0)
-    hard_s = soft_s * 2.5 + 120
+    hard_s = soft_s * 1.5 + 300
 
     results = run_shards(prop, tier, seed, nshards, soft_s, hard_s)
 
